@@ -11,7 +11,7 @@ trap 'git -C /repo worktree remove --force "$W/repo" >/dev/null 2>&1; rm -rf "$W
 git -C /repo worktree add --detach "$W/repo" HEAD >/dev/null 2>&1 || { echo "cannot create worktree"; exit 2; }
 git -C "$W/repo" apply "$PATCH" || { echo "patch does not apply"; exit 2; }
 mkdir -p "$W/verif"
-rsync -a --exclude replays --exclude 'fuzz/target' --exclude 'fuzz/corpus*' --exclude .git --exclude seeded --exclude benign /verif/ "$W/verif/"
+rsync -a --exclude 'incremental' --exclude replays --exclude 'fuzz/target' --exclude 'fuzz/corpus*' --exclude .git --exclude seeded --exclude benign /verif/ "$W/verif/"
 for f in "$W/verif/harness/Cargo.toml" "$W/verif/harness-sim/Cargo.toml" "$W/verif/fuzz/Cargo.toml"; do
     sed -i "s#path = \"/repo/#path = \"$W/repo/#g" "$f"
 done
